@@ -55,6 +55,7 @@ type Env struct {
 	Flags  map[string]bool      // extra boolean atoms, e.g. "zero:wm"
 	Assume func(t *Term, v ssa.Value) Tri
 	Norm   func(t *Term) *Term // optional term normalisation before role lookup
+	CurW   *Walker             // the walker currently evaluating (set while conditions are evaluated; inlined helpers have their own)
 	a      *A
 	depth  int
 }
@@ -384,6 +385,10 @@ func (w *Walker) cmpRanks(op token.Token, x, y ssa.Value) Tri {
 }
 
 func (w *Walker) evalBool(v ssa.Value, ps *pstate) Tri {
+	w.env.CurW = w
+	if w.cur == nil {
+		w.cur = ps
+	}
 	if tv, ok := ps.vals[v]; ok {
 		return tv
 	}
@@ -483,6 +488,7 @@ func (w *Walker) evalCall(c *ssa.Call, ps *pstate) Tri {
 	w.env.depth++
 	outs := sub.Run(callee.Blocks[0], nil)
 	w.env.depth--
+	w.env.CurW = w
 	res := U
 	for _, o := range outs {
 		if o.Ended != "return" || o.Ret == U {
